@@ -26,7 +26,7 @@ def run(tier):
         PID, tier, ['harness.C18_framing'], collect_only=True,
         explanation='', assumptions=[], outside=[], timeout_quick=300, timeout_thorough=900, functions=[])
     jobs = [(run_b_job, ({'property': PID, 'scenario': K, 'params': p, 'known': known},
-                         2400 if tier == 'thorough' else 1500)) for p in b_configs(tier)]
+                         1800 if tier == 'thorough' else 1500)) for p in b_configs(tier)]
     b_results = run_jobs(jobs)
     return finish(
         PID, tier, 'model_checking', list(a_results) + list(b_results), t0,
